@@ -1,7 +1,7 @@
 //! C13 — the server's copy of a document tracks the editor's through any edits.
 use crate::core::Granularity;
 use crate::ide_sim::Violation;
-use crate::lsp::{preamble, DocModel, Edit, Ev, History, Op, PlannedOp, Session};
+use crate::lsp::{preamble, scratch_root, DocModel, Edit, Ev, History, Op, PlannedOp, Session};
 use crate::rng::{mix, Rng};
 use serde_json::json;
 use std::collections::BTreeMap;
@@ -26,12 +26,35 @@ fn doc_uri(i: usize) -> String {
 pub fn gen_session(seed: u64, run: u64, thorough: bool) -> Session {
     let mut rng = Rng::new(mix(mix(seed, run), 13));
     let hash_seed = rng.next();
-    let mut ops = preamble(None);
     let ndocs = if rng.chance(1, 4) { 2 } else { 1 };
+    // One run in three: the documents are files of a project on disk whose saved content differs
+    // from what the editor holds (unsaved changes), so the loader reads the disk on didOpen.
+    let on_disk = rng.chance(1, 3);
+    let root = if on_disk { scratch_root("C13", seed, run) } else { String::new() };
+    let mut tree: Vec<(String, String)> = Vec::new();
+    let doc_uri = |i: usize| -> String {
+        if on_disk {
+            format!("file://{root}/src/d{i}.gleam")
+        } else {
+            doc_uri(i)
+        }
+    };
+    if on_disk {
+        tree.push(("gleam.toml".into(), "name = \"proj\"\n".into()));
+        for d in 0..ndocs {
+            tree.push((format!("src/d{d}.gleam"), format!("// saved content {}\n{}", d, gen_text(&mut rng, 10).replace('\r', ""))));
+        }
+    }
+    let root_uri = format!("file://{root}");
+    let mut ops = preamble(if on_disk { Some(&root_uri) } else { None });
     let mut models: Vec<DocModel> = Vec::new();
     for d in 0..ndocs {
         let text = gen_text(&mut rng, 40);
-        ops.push(PlannedOp::new(Op::Open { uri: doc_uri(d), text: text.clone() }));
+        let mut p = PlannedOp::new(Op::Open { uri: doc_uri(d), text: text.clone() });
+        if on_disk {
+            p.tags.push("open.unsaved_text_differs_from_disk".into());
+        }
+        ops.push(p);
         ops.push(PlannedOp::new(Op::ProbeText { uri: doc_uri(d) }));
         models.push(DocModel { text });
     }
@@ -111,8 +134,8 @@ pub fn gen_session(seed: u64, run: u64, thorough: bool) -> Session {
         gran: Granularity::Coarse,
         policy: "sequential".into(),
         sequential: true,
-        root: String::new(),
-        tree: Vec::new(),
+        root,
+        tree,
         ops,
         crashes: Vec::new(),
         decisions: None,
@@ -148,7 +171,9 @@ pub fn check(s: &Session, h: &History, stats: &mut Stats) -> Option<Violation> {
         match &p.op {
             Op::Open { uri, text } => {
                 models.insert(uri.clone(), DocModel { text: text.clone() });
-                last_tags.insert(uri.clone(), vec!["open".into()]);
+                let mut t = vec!["open".to_string()];
+                t.extend(p.tags.iter().cloned());
+                last_tags.insert(uri.clone(), t);
             }
             Op::Change { uri, edits } => {
                 if let Some(m) = models.get_mut(uri) {
